@@ -730,7 +730,7 @@ func (i *Interpreter) callCallable(fn interface{}, args []interface{}) (interfac
 		fnEnv := NewChildEnvironment(i.globalEnv)
 		for idx, param := range f.Params {
 			if idx < len(args) {
-				fnEnv.Define(param.Name, args[idx])
+				fnEnv.Define(param.Name, coerceArgument(args[idx], param))
 			}
 		}
 		result, err := i.executeStatements(f.Body, fnEnv)
